@@ -243,6 +243,8 @@ def run(ctx):
             ctx.violated("C20.3", init, "documented field %r is never stored by MetaFile.__init__" % k, "field " + k)
     # ---- C20.4 recovery arms
     recovery(ctx, init, rows)
+    post_recovery_values(ctx, init, rows, flow)
+    verbatim_config(ctx, cfg_fn)
     # ---- C20.5 version dispatch
     version_dispatch(ctx)
     from .dynscan import dynamic_features
@@ -282,6 +284,34 @@ def recovery(ctx, init, rows):
             ctx.violated("C20.4", init, "list-valued option %r has no recovery arm: `create --%s url <content>` swallows the content path" % (dest, dest.replace("_", "-")),
                          "recovery arm for " + dest)
     ctx.floor("list-valued create options", 3, len(list_dests))
+
+
+def post_recovery_values(ctx, init, rows, flow):
+    """C20.4b: the list stored in the metafile is the one left AFTER a swallowed content path was taken out of it."""
+    field_of = {"url_list": "url-list", "httpseeds": "httpseeds", "announce": "announce-list"}
+    for dest in sorted({r.dest for r in rows if r.value_kind() == "list"}):
+        key = field_of.get(dest)
+        if key is None:
+            continue
+        stores = [n for n in own_nodes(init.node) if isinstance(n, ast.Assign) and len(n.targets) == 1 and isinstance(n.targets[0], ast.Subscript) and const_str(n.targets[0].slice) == key]
+        for st in stores:
+            t = flow.term(st.value, init)
+            trimmed = any(x[0] == "sub" and any(i == ("const", "slice") for i in x[2]) and any(b[0] == "param" and b[2] == dest for b in x[1]) for x in walk_terms(t))
+            ctx.decide("C20.4", init, trimmed, "field %r is stored from the list as it stands after the recovery of a swallowed content path" % key,
+                       "field %r is stored from a copy of %r taken BEFORE the recovery arm removes a swallowed content path: `create --%s url <content>` leaves the local path in the list" % (
+                           key, dest, dest.replace("_", "-").replace("url-list", "web-seed").replace("httpseeds", "http-seed")), st)
+
+
+def verbatim_config(ctx, cfg_fn):
+    """C20.6: configuration values are taken verbatim (parser constructed with its defaults)."""
+    ctor = [n for n in own_nodes(cfg_fn.node) if isinstance(n, ast.Call) and C.is_ext_call(ctx, n, cfg_fn, ("configparser.ConfigParser", "configparser.RawConfigParser", "configparser.SafeConfigParser"))]
+    if not ctor:
+        ctx.undecided("C20.6", cfg_fn, "configuration parser construction not found")
+    for c in ctor:
+        opts = sorted(kw.arg or "**" for kw in c.keywords) + (["<positional>"] if c.args else [])
+        changing = [o for o in opts if o in ("inline_comment_prefixes", "comment_prefixes", "delimiters", "allow_no_value", "empty_lines_in_values", "interpolation", "converters", "strict", "**", "<positional>", "default_section", "defaults")]
+        ctx.decide("C20.6", cfg_fn, not changing, "the configuration parser is constructed with its defaults: values are taken verbatim",
+                   "the configuration parser is constructed with %s: part of a value (e.g. everything after ' #' or ' ;') is cut off or re-interpreted on the configuration route only, so the same option value means something else than via flag or keyword" % ", ".join(changing), c)
 
 
 def version_dispatch(ctx):
